@@ -23,7 +23,7 @@ var (
 	tier   = flag.String("tier", "quick", "quick|thorough")
 	dir    = flag.String("dir", ".", "output directory")
 	mode   = flag.String("mode", "run", "run|exec")
-	capSec = flag.Int("cap", 30, "cap per real execution: seconds of CPU time of the executing process (wall clock: 10x)")
+	capSec = flag.Int("cap", 120, "cap per real execution: seconds of CPU time of the executing process (wall clock: 10x)")
 )
 
 func main() {
@@ -296,13 +296,21 @@ func runMode(sum *lib.Summary) {
 	r := &runner{}
 	defer r.stop()
 	distinct := map[string]bool{}
+	timeouts := map[string]int{}
 	id := 0
 	report := func(key, what string, replay any) { sum.Fail(key, what, replay) }
 
 	for _, fc := range cases {
 		id++
 		ec := execCase{ID: id, Src: fc.P.Cad, VM: fc.VM, CompLim: fc.Comp, MemLim: fc.Mem, DepthLim: fc.Depth}
+		if timeouts[fc.Cat+engineName(fc.VM)] >= 2 {
+			sum.Count("skipped-after-two-timeouts:" + fc.Cat)
+			continue
+		}
 		res, status := r.run(ec)
+		if status == "timeout" {
+			timeouts[fc.Cat+engineName(fc.VM)]++
+		}
 		sum.Evaluations++
 		sum.Count("category:" + fc.Cat)
 		desc := map[string]any{"category": fc.Cat, "engine": engineName(fc.VM), "comp_limit": fc.Comp, "mem_limit": fc.Mem,
